@@ -125,6 +125,22 @@ PROGRAMS = {
             dict(name="v3", deps={"s"}, fail=lambda v: len(v["s"]) > 1, errs=[((), "v3")]),
         ],
     ),
+    # one validator yielding several located errors, two of them under the same key, one
+    # un-located; a second validator adding a third error under that same key
+    "multi": prog(
+        "Vm",
+        [F("a", INT), F("b", INT, default=V("0"), alias="B"), F("c", INT, default=V("0"))],
+        "@validator\ndef m1(self):\n    LOG.append('m1')\n    if self.a > 2:\n        yield ('xs', 0), 'm1'\n        yield ('xs', 2), 'm1b'\n"
+        "        yield 'm1c'\n        yield get_alias(self).b, 'm1d'\n        yield (get_alias(self).b, 'k'), 'm1e'\n"
+        + vsrc("m2", "self.c > 2", "yield", path="('xs', 0)")
+        + vsrc("m3", "self.c > 3", "yield", path="'xs'"),
+        [
+            dict(name="m1", deps={"a"}, fail=lambda v: v["a"] > 2,
+                 errs=[(("xs", 0), "m1"), (("xs", 2), "m1b"), ((), "m1c"), (("B",), "m1d"), (("B", "k"), "m1e")]),
+            dict(name="m2", deps={"c"}, fail=lambda v: v["c"] > 2, errs=[(("xs", 0), "m2")]),
+            dict(name="m3", deps={"c"}, fail=lambda v: v["c"] > 3, errs=[(("xs",), "m3")]),
+        ],
+    ),
 }
 
 
@@ -154,7 +170,7 @@ class Inst:
         self.opts = Opts(additional_properties=o.get("additional_properties", False), aliaser=get_aliaser(o.get("aliaser")))
         self.bounds = bounds_of(job)
         self.table = message_kinds(self.prog)
-        self.vnames = {v["name"] for v in P["validators"]}
+        self.vnames = {m for v in P["validators"] for _, m in v["errs"]}
         self.VE = ValidationError
         self.LOG = self.prog.module.LOG
         self.functions = method_classes(self_of(self.method)) + [
